@@ -432,7 +432,7 @@ structure WResp where
   /-- `ResponseData::proto_resp` -/
   proto : Strat.ProtoResp
   exts : Option (List Ext.Extension)
-  deriving Repr
+  deriving Repr, DecidableEq
 
 /-- the abstract `Response` the state machine consumes -/
 def WResp.toStrat (r : WResp) (recvTime : Nat) : Strat.Resp :=
